@@ -587,3 +587,153 @@ Definition zMig := @mkMig FNum Z.
 Definition zTables := @mkTables FNum Z Z Z Z unit unit unit Z (list (string * Z)).
 Definition zResult := @mkResult FNum.
 Definition zConfig := @mkConfig Z Z.
+
+(* ------------------------------------------------------------------------- *)
+(** ** Discrete-time posteriors: [NodeTimeValues.standardize / force_probability_space /
+       to_probabilities] (node_time_class.py:103-162) and [DiscreteTimeMethod.mean_var]
+       (core.py:318-339), one grid row at a time *)
+Section Discrete.
+  Variable N : Num.
+  Notation T := (T N).
+  (** numpy's [np.sum] of a 1-D array and [np.exp] are external *)
+  Variable sum : list T -> T.
+  Variable expf : T -> T.
+
+  Inductive space := LinGrid | LogGrid.
+
+  (** [arr.max()] of a non-empty row *)
+  Definition maxl (l : list T) : T :=
+    match l with
+    | [] => zero N
+    | x :: r => fold_left (fun a b => if ltb N a b then b else a) r x
+    end.
+
+  (** [rowmax = grid_data[:, 1:].max(axis=1)]; divide (linear) or subtract (logarithmic) *)
+  Definition standardize (sp : space) (row : list T) : list T :=
+    let m := maxl (tl row) in
+    match sp with
+    | LinGrid => map (fun x => div N x m) row
+    | LogGrid => map (fun x => sub N x m) row
+    end.
+
+  (** [force_probability_space(LIN_GRID)] *)
+  Definition to_linear (sp : space) (row : list T) : list T :=
+    match sp with LinGrid => row | LogGrid => map expf row end.
+
+  (** [to_probabilities]: [assert not np.any(grid_data < 0)], then divide by the row sum;
+      [None] = the assertion fails *)
+  Definition to_probabilities (row : list T) : option (list T) :=
+    if existsb (fun x => ltb N x (zero N)) row then None
+    else let s := sum row in Some (map (fun x => div N x s) row).
+
+  (** what InsideOutsideMethod.run does to a posterior row (core.py:405-407) *)
+  Definition posterior_row (sp : space) (row : list T) : option (list T) :=
+    to_probabilities (to_linear sp (standardize sp row)).
+
+  Fixpoint map2 {A B C} (f : A -> B -> C) (a : list A) (b : list B) : list C :=
+    match a, b with
+    | x :: a', y :: b' => f x y :: map2 f a' b'
+    | _, _ => []
+    end.
+
+  (** the loop body of mean_var (core.py:334-337) *)
+  Definition mean_var_row (times probs : list T) : T * T :=
+    let s := sum probs in
+    let mn := div N (sum (map2 (mul N) probs times)) s in
+    let va := sum (map2 (mul N) (map (fun t => let d := sub N mn t in mul N d d) times)
+                                (map (fun p => div N p (sum probs)) probs)) in
+    (mn, va).
+
+  (** one node: fixed nodes get their tree-sequence time and variance 0 *)
+  Definition mean_var_node (times : list T) (node_time : T) (grid_row : option (list T)) : T * T :=
+    match grid_row with
+    | None => (node_time, zero N)
+    | Some probs => mean_var_row times probs
+    end.
+End Discrete.
+
+(** numpy's pairwise summation (numpy/core/src/umath/loops_utils.h.src, [pairwise_sum]) of a
+    contiguous double array -- the harness instance of [sum] *)
+Section NumpySum.
+  Variable N : Num.
+  Notation T := (T N).
+  Definition seq_sum (acc : T) (l : list T) : T := fold_left (add N) l acc.
+  (** add the next block of 8 to the 8 accumulators *)
+  Fixpoint blocks (r : list T) (l : list T) (nblocks : nat) : list T * list T :=
+    match nblocks with
+    | O => (r, l)
+    | S k => blocks (map2 (add N) r (firstn 8 l)) (skipn 8 l) k
+    end.
+  Definition pairwise_block (l : list T) : T :=
+    let n := length l in
+    if Nat.ltb n 8 then seq_sum (zero N) l
+    else
+      let '(r, rest) := blocks (firstn 8 l) (skipn 8 l) (n / 8 - 1) in
+      let g i := nth i r (zero N) in
+      let res := add N (add N (add N (g 0) (g 1)) (add N (g 2) (g 3)))
+                       (add N (add N (g 4) (g 5)) (add N (g 6) (g 7))) in
+      seq_sum res rest.
+  (** n > 128: split at n/2 rounded down to a multiple of 8 *)
+  Fixpoint np_sum_fuel (fuel : nat) (l : list T) : T :=
+    let n := length l in
+    match fuel with
+    | O => pairwise_block l
+    | S f =>
+        if Nat.leb n 128 then pairwise_block l
+        else let h := (n / 2) - ((n / 2) mod 8) in
+             add N (np_sum_fuel f (firstn h l)) (np_sum_fuel f (skipn h l))
+    end.
+  Definition np_sum (l : list T) : T := np_sum_fuel 20 l.
+End NumpySum.
+
+(* ------------------------------------------------------------------------- *)
+(** ** What each method's [run()] hands to [get_modified_ts] and what the fit object reports
+       (core.py:377-510, variational.py:920-997, discrete.py:742-761) *)
+Section Runs.
+  Variable N : Num.
+  Notation T := (T N).
+  Variable sum : list T -> T.
+  Variable expf : T -> T.
+
+  (** *** variational_gamma: [ep] is the state of the ExpectationPropagation object after
+      [infer()]; [node_moments] / [mutation_moments] / [mutation_mapping] are its methods *)
+  Variable ep : Type.
+  Variable node_moments : ep -> list T * list T.
+  Variable mutation_moments : ep -> list T * list T.
+  Variable mutation_mapping : ep -> list nat.
+
+  Definition vgamma_result (st : ep) : result N :=
+    mkResult (fst (node_moments st)) (Some (snd (node_moments st)))
+             (Some (fst (mutation_moments st))) (Some (snd (mutation_moments st)))
+             (mutation_mapping st).
+  (** [fit.node_posteriors()] / [fit.mutation_posteriors()]: the "mean" and "variance" columns *)
+  Definition vgamma_node_posteriors (st : ep) : list T * list T := node_moments st.
+  Definition vgamma_mutation_posteriors (st : ep) : list T * list T := mutation_moments st.
+
+  (** *** inside_outside: [grid] holds one row per node ([None] for a fixed node) in space
+      [sp]; [times] are the timepoints; [node_times] the input ts.nodes_time; [mnodes] the
+      input mutation nodes *)
+  Definition io_posterior (sp : space) (grid : list (option (list T))) : option (list (option (list T))) :=
+    fold_right (fun row acc =>
+                  match acc with
+                  | None => None
+                  | Some rest =>
+                      match row with
+                      | None => Some (None :: rest)
+                      | Some r => match posterior_row N sum expf sp r with
+                                  | None => None
+                                  | Some p => Some (Some p :: rest)
+                                  end
+                      end
+                  end) (Some []) grid.
+  Definition io_result (times node_times : list T) (post : list (option (list T))) (mnodes : list nat)
+    : result N :=
+    let mv := map2 (fun t row => mean_var_node N sum times t row) node_times post in
+    mkResult (map fst mv) (Some (map snd mv)) None None mnodes.
+  (** [fit.node_posteriors()]: the probability rows, NaN rows for fixed nodes *)
+  Definition io_node_posteriors (post : list (option (list T))) : list (option (list T)) := post.
+
+  (** *** maximization: point estimates only *)
+  Definition max_result (posterior_mean : list T) (mnodes : list nat) : result N :=
+    mkResult posterior_mean None None None mnodes.
+End Runs.
